@@ -345,10 +345,27 @@ func main() {
 		{"expiry/below-twice-window", 2*window - margin, true},
 		{"expiry/above-twice-window", 2*window + margin, false},
 		{"expiry/far-future", 400 * 24 * time.Hour, false},
+		// beyond the range of a time.Duration (about 292 years): differences saturate there
+		{"expiry/291-years-ahead", 291 * 365 * 24 * time.Hour, false},
+		{"expiry/centuries-ahead/300y", 0, false},
+		{"expiry/centuries-ahead/1000y", 0, false},
+		{"expiry/centuries-ahead/year-9999", 0, false},
+		{"expiry/centuries-behind/300y", 0, false},
 	} {
 		e := e
 		tampers = append(tampers, tamper{e.name, e.ok, func() (*protocol.ProofOfWork, pow.Parameters) {
-			return proof(fixedKey, valid(fixedKey, dT, at(e.off), pkiSubject(fixedKey.pub), "SHA-256")), pkiParams(dT)
+			exp := at(e.off)
+			switch {
+			case strings.HasSuffix(e.name, "/300y") && strings.Contains(e.name, "ahead"):
+				exp = now.AddDate(300, 0, 0).Unix()
+			case strings.HasSuffix(e.name, "/1000y"):
+				exp = now.AddDate(1000, 0, 0).Unix()
+			case strings.HasSuffix(e.name, "/year-9999"):
+				exp = time.Date(9999, 12, 31, 23, 59, 59, 0, time.UTC).Unix()
+			case strings.HasSuffix(e.name, "/300y"):
+				exp = now.AddDate(-300, 0, 0).Unix()
+			}
+			return proof(fixedKey, valid(fixedKey, dT, exp, pkiSubject(fixedKey.pub), "SHA-256")), pkiParams(dT)
 		}})
 	}
 	reps := r.Pick(3, 40)
